@@ -823,6 +823,9 @@ class Interp:
             if m.group(2) == 'MAX':
                 return bv((1 << (bits - 1)) - 1 if signed else (1 << bits) - 1, bits)
             return bv(-(1 << (bits - 1)) if signed else 0, bits)
+        m = re.match(r'^(?:ethnum::)?U256::(ONE|ZERO|MAX)$', t)
+        if m:
+            return bv({'ONE': 1, 'ZERO': 0, 'MAX': (1 << 256) - 1}[m.group(1)], 256)
         if t == 'true':
             return z3.BoolVal(True)
         if t == 'false':
